@@ -51,7 +51,7 @@ func specDnlKey(name enc.Name, nonce uint32) uint64 { return enc.SpecNameHash(na
 
 //@ func (PitCsTable).InsertInterest
 //@   modifies all(basePitEntry), all(nameTreePitEntry), all(pitCsTreeNode), all(PitCsTree)
-//@   ensures result0 != nil
+//@   ensures result0 != nil && typeIs(result0, "*nameTreePitEntry") && result0.(*nameTreePitEntry).inRecords != nil
 
 //@ func (FibStrategy).FindNextHopsEnc
 //@   ensures forallIn(0, len(result), func(i int) bool { return result[i] != nil })
@@ -65,6 +65,7 @@ func specDnlKey(name enc.Name, nonce uint32) uint64 { return enc.SpecNameHash(na
 
 //@ func (PitEntry).InRecords
 //@   ensures result != nil ==> forall(func(k uint64) bool { return mapHas(result, k) ==> result[k] != nil })
+//@   ensures typeIs(self, "*nameTreePitEntry") ==> result == self.(*nameTreePitEntry).inRecords
 
 //@ func (PitEntry).OutRecords
 //@   ensures result != nil ==> forall(func(k uint64) bool { return mapHas(result, k) ==> result[k] != nil })
